@@ -31,6 +31,7 @@ import warnings
 import numpy as np
 
 from ..gen import arrays as A
+from ..mon import siblings as S
 from ..mon.compare import compare_arrays, lazy_meta_mismatch
 
 PROP = "C24"
@@ -414,14 +415,14 @@ def _features(case, x):
             return "reuse-mode&width>reusable-extent"
         if reuse and kw.get("reflect_type") == "odd":
             return "reflect_type=odd"
-        if stat and "stat_length" in kw and sl is None:
-            return "stat-mode&stat_length=None"
         if stat and sl is not None and any(max(q) > s for q, s in zip(np.broadcast_to(np.asarray(sl), (nd, 2)).tolist(), shape)):
             return "stat-mode&stat_length>axis"
         if any(s == 0 and max(p) > 0 for p, s in zip(pw, shape)):
             return "mode=%s&padded-axis-empty" % mode
         if mode == "mean" and x.dtype.kind in "iu" and sum(1 for p in pw if max(p) > 0) >= 2:
             return "mode=mean&integer-dtype&corners"
+        if stat and "stat_length" in kw and sl is None:      # after the corner mechanism: None now means "the whole axis"
+            return "stat-mode&stat_length=None"
         f.append("mode=" + mode)
     elif op == "take":
         f.append("indices=" + case.get("ikind", "empty"))
@@ -478,7 +479,8 @@ def run_case(case, ctx):
         v = sec_np(s)
         return v if s["np"] else da.from_array(v, chunks=A.chunks_of_desc(s["chunks"]))
 
-    def build(mod, X, sec):
+    def build(mod, X, sec, case=case):
+        # `case` is the case itself or (sibling facet) the case with one parameter changed
         isda = mod is da
         if op == "reshape":
             tgt = _tup(case["tgt"])
@@ -615,3 +617,198 @@ def run_case(case, ctx):
     if m:
         ctx.violation("%s:%s:%s" % (op, feat, m[0]), m[1])
     ctx.sample = {"op": op, "chunks": case["chunks"], "result_shape": list(np.shape(rv)), "result_chunks": repr(r.chunks)[:100]}
+    # ---- sibling facet: the same operation with ONE parameter changed must not share keys with this result ------
+    sib = _sibling(case)
+    if sib is not None:
+        param, c2 = sib
+        S.check(ctx, op, param, r, (lambda: build(da, dx, sec_da, case=c2)), va=rv,
+                describe={k: v for k, v in c2.items() if case.get(k) != v})
+
+
+def _other_int(srng, v, lo, hi):
+    cand = [i for i in range(lo, hi + 1) if i != v]
+    return srng.choice(cand) if cand else None
+
+
+def _sibling(case):
+    """(parameter name, case with that ONE parameter changed) or None: another indexer / axis / target / width / k ..."""
+    op = case["op"]
+    shape = case["shape"]
+    nd = len(shape)
+    srng = S.rng_for(case)
+    c2 = dict(case)
+
+    def other_axis(key, lo, hi):
+        v = case[key]
+        if not isinstance(v, int):
+            return None
+        cand = [a for a in range(lo, hi + 1) if a != v and (a - v) % max(hi + 1, 1) != 0]
+        if not cand:
+            return None
+        c2[key] = srng.choice(cand)
+        return key, c2
+
+    if op == "reshape":
+        if srng.random() < 0.3:
+            c2["mc"] = not case["mc"]
+            return "merge_chunks", c2
+        for _ in range(5):
+            t = _reshape_target(srng, tuple(shape))
+            if list(t) != list(case["tgt"]):
+                c2["tgt"] = t
+                return "shape", c2
+        return None
+    if op == "transpose":
+        if nd < 2:
+            return None
+        axes = list(range(nd))
+        srng.shuffle(axes)
+        c2.update(axes=axes, form="axes")
+        return "axes", c2
+    if op == "moveaxis":
+        if isinstance(case["dst"], int) and nd >= 2:
+            return ("axes", c2) if other_axis("dst", 0, nd - 1) else None
+        return None
+    if op == "swapaxes":
+        return ("axes", c2) if nd >= 2 and other_axis("a2", 0, nd - 1) else None
+    if op == "squeeze":
+        ones = [i for i, n in enumerate(shape) if n == 1]
+        if len(ones) < 2:
+            return None
+        cur = case["axis"]
+        c2["axis"] = srng.choice(ones) if cur is None or isinstance(cur, list) else None
+        return "axis", c2
+    if op == "expand_dims":
+        if isinstance(case["axis"], int):
+            return ("axis", c2) if other_axis("axis", 0, nd) else None
+        return None
+    if op == "stack":
+        return ("axis", c2) if other_axis("axis", 0, nd) else None
+    if op == "concatenate":
+        k = len(case["secs"])
+        if k >= 1:
+            c2["pos"] = srng.choice([p for p in range(k + 1) if p != case["pos"]])
+            return "order", c2
+        return None
+    if op == "broadcast_to":
+        c2["tgt"] = [srng.randint(1, 3)] + list(case["tgt"])
+        if case["tchunks"]:
+            c2["tchunks"] = False
+        return "shape", c2
+    if op == "flip":
+        if case.get("form", "flip") != "flip" or nd == 0:
+            return None
+        cur = case["axis"]
+        cand = [a for a in [None] + list(range(nd)) if a != cur and not (isinstance(cur, int) and a is not None and (a - cur) % nd == 0)]
+        if nd == 1:
+            return None
+        c2["axis"] = srng.choice(cand)
+        return "axis", c2
+    if op == "rot90":
+        v = _other_int(srng, case["k"] % 4, 0, 3)
+        c2["k"] = v
+        return "k", c2
+    if op == "take":
+        idx = case["idx"]
+        n = shape[case["axis"]]
+        if n == 0:
+            return None
+        if isinstance(idx, int):
+            v = _other_int(srng, idx % n, 0, n - 1)
+            if v is None:
+                return None
+            c2["idx"] = v
+        else:
+            idx = list(idx)
+            u = srng.random()
+            if idx and u < 0.6:
+                i = srng.randrange(len(idx))
+                v = _other_int(srng, idx[i] % n, 0, n - 1)
+                if v is None:
+                    idx.append(0)
+                else:
+                    idx[i] = v
+            elif idx and u < 0.8:
+                idx = idx[::-1] if idx != idx[::-1] else idx + [idx[0]]
+            else:
+                idx.append(srng.randrange(n))
+            c2["idx"] = idx
+        return "indices", c2
+    if op == "shuffle":
+        groups = [list(g) for g in case["indexer"]]
+        flat = [i for g in groups for i in g]
+        if len(flat) < 2:
+            return None
+        if len(groups) >= 2 and srng.random() < 0.5:
+            i = srng.randrange(len(groups) - 1)
+            groups[i], groups[i + 1] = groups[i + 1], groups[i]       # same groups, other order
+        else:
+            i, j = srng.sample(range(len(flat)), 2)
+            flat[i], flat[j] = flat[j], flat[i]                       # same group sizes, two positions exchanged
+            out, k = [], 0
+            for g in groups:
+                out.append(flat[k:k + len(g)])
+                k += len(g)
+            groups = out
+        c2["indexer"] = groups
+        return "indexer", c2
+    if op == "repeat":
+        if isinstance(case["repeats"], int):
+            c2["repeats"] = _other_int(srng, case["repeats"], 0, 3)
+            return "repeats", c2
+        return None
+    if op == "tile":
+        reps = case["reps"]
+        if isinstance(reps, int):
+            c2["reps"] = _other_int(srng, reps, 0, 3)
+        elif reps:
+            reps = list(reps)
+            i = srng.randrange(len(reps))
+            reps[i] = _other_int(srng, reps[i], 0, 3)
+            c2["reps"] = reps
+        else:
+            c2["reps"] = [2]
+        return "reps", c2
+    if op == "pad":
+        kw = case["kw"]
+        if "constant_values" in kw and isinstance(kw["constant_values"], int) and srng.random() < 0.5:
+            c2["kw"] = dict(kw, constant_values=srng.choice([v for v in (0, 1, 3, 7) if v != kw["constant_values"]]))
+            return "constant_values", c2
+        if srng.random() < 0.35:
+            same_kw = {"reflect": "symmetric", "symmetric": "reflect", "maximum": "minimum", "minimum": "maximum",
+                       "mean": "maximum", "median": "minimum", "edge": "wrap", "wrap": "edge"}.get(case["mode"])
+            if same_kw:
+                c2["mode"] = same_kw
+                return "mode", c2
+        pw = case["pw"]
+        if isinstance(pw, int):
+            c2["pw"] = pw + 1
+        elif pw and isinstance(pw[0], int):
+            c2["pw"] = [pw[0] + 1, pw[1]]
+        elif pw:
+            pw = [list(q) for q in pw]
+            i = srng.randrange(len(pw))
+            pw[i][srng.randrange(2)] += 1
+            c2["pw"] = pw
+        else:
+            return None
+        return "pad_width", c2
+    if op in ("tril", "triu"):
+        c2["k"] = _other_int(srng, case["k"], -4, 4)
+        return "k", c2
+    if op == "diff":
+        if srng.random() < 0.5 and nd >= 2:
+            return ("axis", c2) if other_axis("axis", 0, nd - 1) else None
+        c2["n"] = _other_int(srng, case["n"], 0, 3)
+        return "n", c2
+    if op == "roll":
+        sh = case["shift"]
+        if isinstance(sh, int):
+            c2["shift"] = sh + srng.choice((1, 2, -1))
+        else:
+            sh = list(sh)
+            i = srng.randrange(len(sh))
+            sh[i] += srng.choice((1, 2, -1))
+            c2["shift"] = sh
+        return "shift", c2
+    return None
